@@ -9,6 +9,20 @@ use sentinel_core::verif::clock;
 use sentinel_core::Error;
 use std::sync::{Arc, Mutex};
 
+/// records the round trip like the resource statistic slot does, without touching any statistic window
+struct RtSlot {}
+impl sentinel_core::base::BaseSlot for RtSlot {
+    fn order(&self) -> u32 {
+        1000
+    }
+}
+impl sentinel_core::base::StatSlot for RtSlot {
+    fn on_completed(&self, ctx: &mut sentinel_core::base::EntryContext) {
+        let rt = sentinel_core::utils::curr_time_millis() - ctx.start_time();
+        ctx.set_round_trip(rt);
+    }
+}
+
 fn st_code(s: State) -> u8 {
     match s {
         State::Closed => 0,
@@ -128,6 +142,13 @@ pub fn c03_breaker(s: Shape) {
             }
         }
     }
+    // p7 == 1: the complete global chain; otherwise the breaker slots plus a slot that only records the round trip
+    let chain = if s.p[7] == 1 {
+        sentinel_core::api::global_slot_chain()
+    } else {
+        use sentinel_core::verif::slots;
+        sentinel_core::verif::slot_chain_of(slots::BREAKER | slots::STAT_BREAKER, Some(Arc::new(RtSlot {})))
+    };
     let mut want_log: Vec<(u8, u8, usize)> = Vec::new();
     let mut open: Vec<(EntryStrongPtr, u64)> = Vec::new();
     for _ in 0..depth {
@@ -168,6 +189,7 @@ pub fn c03_breaker(s: Shape) {
             let got = EntryBuilder::new(res.clone())
                 .with_resource_type(ResourceType::Common)
                 .with_traffic_type(TrafficType::Outbound)
+                .with_slot_chain(chain.clone())
                 .build();
             match got {
                 Ok(e) => {
